@@ -3,7 +3,7 @@
 from hypothesis import strategies as st
 
 NAMES = ["A", "B", "C", "D"]
-BODIES = ["", "0", "1", "2", "7"]
+BODIES = ["", "0", "1", "2", "7", "0x0", "00", "0L", "0u", "0x1", "1UL", "007", "0b10"]
 
 
 def conds(names=NAMES, raw=True):
@@ -108,7 +108,7 @@ def styles():
 
 def define_sets(names=NAMES):
     """one -D assignment per name: undefined / -DN / -DN= / -DN=0 / -DN=1 / -DN=7"""
-    choice = st.sampled_from([None, None, "{n}", "{n}=", "{n}=0", "{n}=1", "{n}=7", "{n}=2"])
+    choice = st.sampled_from([None, None, "{n}", "{n}=", "{n}=0", "{n}=1", "{n}=7", "{n}=2", "{n}=0L", "{n}=0x0", "{n}=1u", "{n}=00"])
     return st.tuples(*[choice for _ in names]).map(lambda cs: [c.format(n=n) for n, c in zip(names, cs) if c is not None])
 
 
@@ -241,6 +241,22 @@ def include_tree_cases(dangling=None, unknown=None):
             if inc is not None and not any(it[0] == "include" for it in items):
                 items = items + draw(inc)
             tree[m] = {"items": items, "style": draw(styles())}
+        # a selector header whose computed #include is reached several times with different expansions:
+        # re-included after SEL was redefined, or by commands that pass different -DSEL=...
+        qmain = sorted(n for n in quote_ok(f"{CB}/src") if "/" not in n)
+        if len(qmain) >= 1 and draw(st.integers(0, 2)) == 0:
+            tree[f"{CB}/src/sel.h"] = {"items": [["code", 1], ["include", "macro", "SEL"], ["code", 1]], "style": draw(styles())}
+            a = draw(st.sampled_from(qmain))
+            b = draw(st.sampled_from(qmain))
+            m = tree["cb/src/main.c"]
+            if draw(st.booleans()):
+                m["items"] = [["undef", "SEL"], ["define", "SEL", f'"{a}"'], ["include", "quote", "sel.h"], ["undef", "SEL"], ["define", "SEL", f'"{b}"'], ["include", "quote", "sel.h"]] + m["items"]
+            else:
+                m["items"] = [["include", "quote", "sel.h"]] + m["items"]
+                for cmds in plats.values():
+                    for c in cmds:
+                        c["file"] = "cb/src/main.c"
+                        c["defines"] = [d for d in c["defines"] if not d.startswith("SEL")] + [f'SEL="{draw(st.sampled_from([a, b]))}"']
         for cmds in plats.values():
             for c in cmds:
                 fo = sorted(quote_ok(c["file"].rsplit("/", 1)[0]))
